@@ -528,8 +528,10 @@ class PCovR(_BasePCA, LinearModel):
 
         # Postprocess the number of components required
         if self.n_components_ == "mle":
+            # in sample space the spectrum is that of the n_samples x n_samples Gram
+            # matrix: only its first n_features values belong to the data
             self.n_components_ = _infer_dimension(
-                explained_variance_, self.n_samples_in_
+                explained_variance_[: self.n_features_in_], self.n_samples_in_
             )
         elif 0 < self.n_components_ < 1.0:
             # number of components for which the cumulated explained
